@@ -6,7 +6,7 @@
     has an odd number of terms ([Merge::from_vec] asserts it); theorems about the loop carry
     that guard. *)
 From Verif Require Import Base.Prelude Model.Merge Model.C01 Proofs.C01 Proofs.C01Simp
-  Proofs.C01Update Proofs.C01Checker Proofs.C01Deep.
+  Proofs.C01Update Proofs.C01Checker Proofs.C01Deep Proofs.C01Resolved.
 Local Open Scope Z_scope.
 
 Section Statements.
@@ -49,6 +49,22 @@ Section Statements.
   Theorem C01_simplify_idem : forall (m : list T),
     Nat.odd (length m) = true -> simplify eqb (simplify eqb m) = simplify eqb m.
   Proof. exact (simplify_idem eqb eqb_spec). Qed.
+
+  (** A conflict with no value on both sides whose net counts are those of one value [v] is
+      the resolved conflict [v]; so [simplify] resolves every conflict that denotes a single
+      value (the form in which C07/C08 use C01). *)
+  Theorem C01_simplified_single : forall (m : list T) (v : T),
+    Nat.odd (length m) = true ->
+    (forall a, In a (adds m) -> ~ In a (removes m)) ->
+    (forall w, den eqb m w = if eqb v w then 1 else 0) ->
+    m = [v].
+  Proof. exact (simplified_single eqb eqb_spec). Qed.
+
+  Theorem C01_simplify_resolves : forall (m : list T) (v : T),
+    Nat.odd (length m) = true ->
+    (forall w, den eqb m w = if eqb v w then 1 else 0) ->
+    simplify eqb m = [v].
+  Proof. exact (simplify_resolves eqb eqb_spec). Qed.
 
   (** The loop of [get_simplified_mapping] ends because the cursor leaves the vector, not
       because the model's fuel [S (length m)] runs out: any larger fuel gives the same result. *)
@@ -141,6 +157,7 @@ Print Assumptions C01_flatten_den.
 Print Assumptions C01_flatten_deep_den.
 Print Assumptions C01_simplified_disjoint.
 Print Assumptions C01_simplify_idem.
+Print Assumptions C01_simplify_resolves.
 Print Assumptions C01_mapping_sound.
 Print Assumptions C01_update_lands.
 Print Assumptions C01_okb_spec.
